@@ -329,8 +329,8 @@ def tr_defer(ctx):
                 out.append(bad('TR-defer', key, 'decides not to run the queue while it is %s: nobody is obliged to run it, the caller would wait for ever' % '/'.join(stranded), fn=fname))
             else:
                 out.append(ok('TR-defer', key, 'defers only while the queue is owned or parked', fn=fname))
-        if rows < 5:
-            out.append(undecided('TR-defer', nice + '|floor', 'only %d deferring rows found, expected at least 5' % rows))
+        if rows < 1:
+            out.append(undecided('TR-defer', nice + '|floor', 'no deferring row found: a caller cannot run a queue that somebody else is running, so it defers at least then'))
     return out
 
 
@@ -729,6 +729,15 @@ def tr_base(ctx):
             continue        # the function is gone: an anchor question, asked elsewhere
         added = sorted(c - b)
         gone = sorted(b - c)
+        # a function that already claims queues now also claims them from another state in which nobody holds the queue (a sync that takes a
+        # parked queue over instead of waiting for it): exclusion is PA-excl's question and the claimer's obligations are the TOK rules',
+        # both decided on the current code; the relation is not required to stay frozen for it
+        if any(r == 'acquire' for (_, _, r) in b):
+            widened = [(a, d, r) for (a, d, r) in added if r == 'acquire' and d == 'Running' and a in UNOWNED and a != 'Panicked']
+            added = [x for x in added if x not in widened]
+            if widened and not added and not gone:
+                out.append(ok('TR-base', key, '%d transition(s) as reviewed; also claims from %s (an unowned state: decided by PA-excl and the TOK rules)' % (len(b), '/'.join(sorted(set(a for a, _, _ in widened)))), fn=root))
+                continue
         if not added and not gone:
             out.append(ok('TR-base', key, '%d transition(s) as reviewed' % len(b), fn=root))
             continue
